@@ -566,3 +566,69 @@ def _keeps_shallow(h, j):
         if x.op == 'store' and h.strip_casts(x.a[0]) == ['a', j] and h.root(h.path(x.a[1]))[0] != 'alloca':
             return True
     return False
+
+
+def r7_result_tested(ck, P):
+    """T-ERR: no allocation failure is swallowed at the call site"""
+    R = ck.rule('C15-R7', 'the pointer result of every allocation, and of every function that passes an allocation failure on as NULL, is compared with NULL, returned to the caller, or stored into a location whose value is compared with NULL in the same function: a failure is never silently carried on', floor=40)
+    MRN = set(may_return_null(P))
+    F = fallible(P)
+    # pointer-returning functions that answer NULL when a fallible status callee failed (bitmap_addrect)
+    for g in P.functions():
+        if g in MRN or not g.type.split(' ')[0].endswith('*'):
+            continue
+        if any(P.resolve(g, c.callee) in F for c in g.calls() if isinstance(c.callee, str)):
+            for t in g.rets():
+                if t.a and (t.a[0][0] == 'n' or (t.a[0][0] == 'v' and g.v(t.a[0]) is not None and g.v(t.a[0]).op == 'phi' and any(a[0] == 'n' for a in g.v(t.a[0]).a))):
+                    MRN.add(g)
+    scope = api_scope(P)
+    for f in P.functions():
+        if f not in scope:
+            continue
+        tested_paths = set()
+        for x in f.insts():
+            if x.op == 'icmp' and any(o[0] == 'n' for o in x.a):
+                for o in x.a:
+                    y = f.v(f.strip_casts(o)) if o[0] == 'v' else None
+                    if y is not None and y.op == 'load':
+                        tested_paths.add(f.pstr(f.path(y.a[0])))
+        for c in f.calls():
+            g = P.resolve(f, c.callee) if isinstance(c.callee, str) else None
+            if not (c.callee in EXTERNAL_ALLOC or g in MRN):
+                continue
+            if not c.ty.endswith('*'):
+                continue
+            ck.saw(f)
+
+            def tested(x, seen):
+                for y in f.users(x):
+                    if y.op == 'icmp' and any(o[0] == 'n' for o in y.a):
+                        return True
+                    if y.op == 'ret':
+                        return True
+                    if y.op == 'store' and f.strip_casts(y.a[0]) == f.strip_casts(['v', x.i]) and f.pstr(f.path(y.a[1])) in tested_paths:
+                        return True
+                    if y.op in ('phi', 'bitcast', 'select') and y.i not in seen:
+                        seen.add(y.i)
+                        if tested(y, seen):
+                            return True
+                return False
+
+            what = '%s: result of %s at %s' % (f.name, c.callee, c.loc())
+            # aliases of the result through casts and phis; a hand-over to another call before any NULL test on them swallows the failure
+            A = {c.i}; work = [c]
+            while work:
+                x_ = work.pop()
+                for y in f.users(x_):
+                    if y.op in ('phi', 'bitcast', 'select') and y.i not in A:
+                        A.add(y.i); work.append(y)
+            inA = lambda o: o[0] == 'v' and o[1] in A
+            barrier = lambda y: (y.op == 'icmp' and any(o[0] == 'n' for o in y.a) and any(inA(o) for o in y.a)) or (y.op == 'store' and inA(y.a[0]))
+            target = lambda y: y.op == 'call' and y.i != c.i and isinstance(y.callee, str) and not y.callee.startswith('llvm.') and y.callee != 'free' and any(inA(o) for o in y.a)
+            esc = f.reach_avoiding(c, barrier, target) if tested(c, {c.i}) else None
+            if esc is not None:
+                ck.violation(R, f.name, 'result of %s handed on untested' % c.callee, '%s can reach the call of %s at %s with the result of %s not yet compared with NULL on that path: a failed allocation is carried into the next step and its failure is lost' % (f.name, esc.callee, esc.loc(), c.callee), c.loc())
+            elif tested(c, {c.i}):
+                ck.ok(R, what)
+            else:
+                ck.violation(R, f.name, 'unchecked result of %s' % c.callee, '%s never compares the result of %s with NULL (nor returns it): when the allocation fails the function carries on and the failure is lost or later overwritten' % (f.name, c.callee), c.loc())
